@@ -29,15 +29,15 @@ package curve
 //@ interface Curve method NewPoint
 //@   modifies nothing
 //@   allocates
-//@   ensures result != nil && fresh(result) && ptval(result) == p_id()
+//@   ensures result != nil && fresh(result) && ptval(result) == p_id() && (typeis(self, Secp256k1) ==> typeis(result, *Secp256k1Point))
 //@ interface Curve method NewBasePoint
 //@   modifies nothing
 //@   allocates
-//@   ensures result != nil && fresh(result) && ptval(result) == gen()
+//@   ensures result != nil && fresh(result) && ptval(result) == gen() && (typeis(self, Secp256k1) ==> typeis(result, *Secp256k1Point))
 //@ interface Curve method NewScalar
 //@   modifies nothing
 //@   allocates
-//@   ensures result != nil && fresh(result) && scval(result) == s_zero()
+//@   ensures result != nil && fresh(result) && scval(result) == s_zero() && (typeis(self, Secp256k1) ==> typeis(result, *Secp256k1Scalar))
 //@ interface Curve method Name
 //@   pure
 //@ interface Curve method ScalarBits
@@ -93,11 +93,11 @@ package curve
 //@   requires arg0 != nil
 //@   modifies nothing
 //@   allocates
-//@   ensures result != nil && fresh(result) && ptval(result) == act(scval(self), ptval(arg0))
+//@   ensures result != nil && fresh(result) && ptval(result) == act(scval(self), ptval(arg0)) && (typeis(self, *Secp256k1Scalar) ==> typeis(result, *Secp256k1Point))
 //@ interface Scalar method ActOnBase
 //@   modifies nothing
 //@   allocates
-//@   ensures result != nil && fresh(result) && ptval(result) == act(scval(self), gen())
+//@   ensures result != nil && fresh(result) && ptval(result) == act(scval(self), gen()) && (typeis(self, *Secp256k1Scalar) ==> typeis(result, *Secp256k1Point))
 
 //@ interface Point method Curve
 //@   pure
@@ -106,16 +106,16 @@ package curve
 //@   requires arg0 != nil
 //@   modifies nothing
 //@   allocates
-//@   ensures result != nil && fresh(result) && ptval(result) == p_add(ptval(self), ptval(arg0))
+//@   ensures result != nil && fresh(result) && ptval(result) == p_add(ptval(self), ptval(arg0)) && dyntype(result) == dyntype(self)
 //@ interface Point method Sub
 //@   requires arg0 != nil
 //@   modifies nothing
 //@   allocates
-//@   ensures result != nil && fresh(result) && ptval(result) == p_add(ptval(self), p_neg(ptval(arg0)))
+//@   ensures result != nil && fresh(result) && ptval(result) == p_add(ptval(self), p_neg(ptval(arg0))) && dyntype(result) == dyntype(self)
 //@ interface Point method Negate
 //@   modifies nothing
 //@   allocates
-//@   ensures result != nil && fresh(result) && ptval(result) == p_neg(ptval(self))
+//@   ensures result != nil && fresh(result) && ptval(result) == p_neg(ptval(self)) && dyntype(result) == dyntype(self)
 //@ interface Point method Equal
 //@   requires arg0 != nil
 //@   modifies nothing
@@ -126,12 +126,17 @@ package curve
 //@ interface Point method XScalar
 //@   modifies nothing
 //@   allocates
-//@   ensures result != nil && fresh(result) && scval(result) == xcoord(ptval(self))
+//@   ensures result != nil && fresh(result) && scval(result) == xcoord(ptval(self)) && (typeis(self, *Secp256k1Point) ==> typeis(result, *Secp256k1Scalar))
 
 // Decoders of group elements from arbitrary bytes (length checks proved; field arithmetic is A-LIB-EC).
+// sc_of_bytes(b): the scalar with big-endian encoding b (32 bytes, below the group order)
+//@ spec fn sc_of_bytes(Int) Int
 //@ func (*Secp256k1Scalar).UnmarshalBinary
 //@   nopanic[C05,C15]
 //@   requires s != nil
+//@   modifies scval(s)
+//@   ensures[C15] result == nil ==> len(data) == 32
+//@   summary result == nil ==> scval(s) == sc_of_bytes(bval(data))
 //@ func (*Secp256k1Point).UnmarshalBinary
 //@   nopanic[C05,C15]
 //@   requires p != nil
@@ -141,6 +146,10 @@ package curve
 //@ func (*Secp256k1Point).MarshalBinary
 //@   nopanic[C05]
 //@   requires p != nil
+//@   modifies nothing
+//@   allocates
+//@   ensures result1 == nil && len(result0) == 33 && fresh(result0)
+//@   summary bval(result0) == benc(iface(p)) && ptval(p) == old(ptval(p))
 
 // Hash-to-scalar (C01, C16): SEC 1 truncation for every digest length -- the leftmost min(len, ceil(bits/8))
 // bytes, shifted right by the excess bits, reduced into the scalar field.
@@ -171,3 +180,19 @@ package curve
 //@   allocates
 //@   ensures result != nil && len(result) == 32
 //@   summary bval(result) == xbytes(ptval(p)) && ptval(p) == old(ptval(p))
+
+// x-only keys (BIP-340, C14, C16): liftx(b) is the curve point with x coordinate b and even y.
+//@ spec fn liftx(Int) Int
+//@ spec fn even_y(Int) Bool
+//@ func (Secp256k1).LiftX
+//@   nopanic[C05]
+//@   modifies nothing
+//@   allocates
+//@   ensures (result1 == nil) == (result0 != nil)
+//@   ensures result1 == nil ==> fresh(result0)
+//@   summary result1 == nil ==> (ptval(result0) == liftx(bval(data)) && even_y(ptval(result0)))
+//@ func (*Secp256k1Point).HasEvenY
+//@   nopanic[C05]
+//@   requires p != nil
+//@   modifies nothing
+//@   summary result == even_y(ptval(p)) && ptval(p) == old(ptval(p))
